@@ -70,22 +70,43 @@ def nanTail (s : Bytes) : Nat × Nat × Errno :=
     | _ => (quietNaN, 0, .none)
   | _ => (quietNaN, 0, .none)
 
-/-- is the positive rational num/den ≠ 0 rounded to `bits` without error? -/
-def exactAs (num den bits : Nat) : Bool :=
-  match Dbl.decode bits with
-  | .fin _ n d => n * den == num * d
-  | _ => false
-
-/-- round the positive rational `num/den` and report errno the way glibc does -/
-def finishPos (num den : Nat) : Nat × Errno :=
+/-- glibc's `round_and_return` on the positive rational `num/den`: the 53 leading bits `M`, the next
+bit `R` and a sticky flag `S` are rounded to nearest even; errno = ERANGE on overflow and on an
+inexact result that is tiny after rounding.  Observed on glibc 2.36 (and reproduced here, since the
+reference has to describe the libc the code runs on): when the result is subnormal, `M` is shifted
+right and `R` is forgotten (only `S` stays sticky) for every hexadecimal literal, and for a decimal
+literal when the shift is exactly one bit; such a value is rounded as if its 54th bit were clear. -/
+def roundGlibc (hex : Bool) (num den : Nat) : Nat × Errno :=
   if num == 0 then (0, .none)
   else
-    let bits := (Dbl.roundNE num den).toNat
-    if bits == posInf then (bits, .ERANGE)
+    let e0 : Int := (Nat.log2 num : Int) - (Nat.log2 den : Int) - 52
+    let scaled (e : Int) : Nat × Nat :=
+      if e ≥ 0 then (num, den * 2 ^ e.toNat) else (num * 2 ^ (-e).toNat, den)
+    let q (e : Int) : Nat := (scaled e).1 / (scaled e).2
+    let e : Int := if q e0 ≥ 2 ^ 53 then e0 + 1 else if q e0 < 2 ^ 52 then e0 - 1 else e0
+    let (a, b) := scaled e
+    let M := a / b
+    let r := a % b
+    let R : Bool := decide (2 * r ≥ b)
+    let S : Bool := decide (2 * r ≠ b ∧ r ≠ 0)
+    let E := e + 52
+    if E ≥ -1022 then
+      let M1 := if R && (S || M % 2 == 1) then M + 1 else M
+      let (M1, E1) : Nat × Int := if M1 == 2 ^ 53 then (2 ^ 52, E + 1) else (M1, E)
+      if E1 > 1023 then (posInf, .ERANGE) else ((E1 + 1023).toNat * 2 ^ 52 + (M1 - 2 ^ 52), .none)
+    else if E < -1022 - 53 then (0, .ERANGE)
     else
-      -- tiny after rounding to 53 bits with unbounded exponent: v < 2^-1022 - 2^-1076
-      let tiny := num * 2 ^ 1076 < den * (2 ^ 54 - 1)
-      if tiny && !(exactAs num den bits) then (bits, .ERANGE) else (bits, .none)
+      let shift := (-1022 - E).toNat
+      let rb : Bool := M / 2 ^ (shift - 1) % 2 == 1
+      let dropR : Bool := hex || shift == 1
+      let st : Bool := S || (!dropR && R) || M % 2 ^ (shift - 1) != 0
+      let M' := M / 2 ^ shift
+      let M'' := if rb && (st || M' % 2 == 1) then M' + 1 else M'
+      let tiny : Bool := !(shift == 1 && (R && (S || M % 2 == 1)) && M + 1 == 2 ^ 53)
+      (M'', if tiny && (rb || st) then .ERANGE else .none)
+
+def finishPos (num den : Nat) : Nat × Errno := roundGlibc false num den
+def finishHex (num den : Nat) : Nat × Errno := roundGlibc true num den
 
 /-- hexadecimal literal after the sign: `0x` hex* [`.` hex*] [`p` [+-] dec+], at least one hex digit -/
 def scanHex (s : Bytes) : Option (Nat × Nat × Int × Nat) :=   -- mantissa, #hex digits, exp2, consumed
@@ -141,7 +162,7 @@ def strtod (s : Bytes) : DRes :=
         if mant == 0 then (0, .none)
         else if e2 > 1100 then (posInf, .ERANGE)
         else if e2 + 4 * nd < -1100 then (0, .ERANGE)
-        else if e2 ≥ 0 then finishPos (mant * 2 ^ e2.toNat) 1 else finishPos mant (2 ^ (-e2).toNat)
+        else if e2 ≥ 0 then finishHex (mant * 2 ^ e2.toNat) 1 else finishHex mant (2 ^ (-e2).toNat)
       ⟨sgn b, pre + k, e⟩
     | none =>
       match s2 with
